@@ -491,7 +491,10 @@ Exec(n, st) ==
               IF rp.st.err # "" THEN rp.st
               ELSE \* (the set's globals are visible in every template of the set, also under `only`)
                    LET view == IF n.only THEN rp.v @@ st.globals ELSE rp.v @@ Top(st) @@ st.pub IN
+                   \* (a macro of the includer that the included template calls - it is among the names it sees - is still the includer's
+                   \*  macro: its body runs in a child of the scope it was defined in, and the depth of macro calls keeps counting)
                    LET sub == [InitState(view) EXCEPT !.files = st.files, !.globals = st.globals, !.symbolic = st.symbolic, !.auto = TRUE, !.path = <<"file", n.name>>,
+                                                     !.env = Append(rp.st.env, <<>>), !.macros = rp.st.macros, !.depth = rp.st.depth,
                                                      !.evs = Append(rp.st.evs, <<"ExecBegin">>)] IN
                    LET st1 == ExecSeq(st.files[n.name], sub, 0) IN
                    IF st1.err # "" THEN [rp.st EXCEPT !.err = st1.err, !.evs = st1.evs]
